@@ -123,8 +123,9 @@ func RunWorker(c *Check, tier string, shard, nshards int, seed int64, budget tim
 			s = 1
 		}
 		pb := time.Duration(float64(budget)*s/total) + carry
-		if pb < 0 {
-			pb = 0
+		// a phase keeps at least a quarter of its own share, whatever the earlier ones overshot
+		if floor := time.Duration(float64(budget) * s / total / 4); pb < floor {
+			pb = floor
 		}
 		pr := PhaseResult{Name: p.Name, Space: p.Space}
 		w.cur = &pr
